@@ -276,11 +276,18 @@ pub fn run(args: &Args) {
         let mut sent_hash_parts: HashSet<u32> = HashSet::new();
         let n_steps = 8 + rng.below(12) as usize;
         let mut waited = false;
-        for _ in 0..n_steps {
-            let ci = rng.below(clients.len() as u64) as usize;
+        // the last six steps are an audit: the v4 client 0 and the v6 client 3 scrape each torrent of the
+        // case on its own with a fresh valid id (what the tracker holds at the end must be the reference's)
+        for step_no in 0..(n_steps + 6) {
+            let audit: Option<usize> = if step_no >= n_steps { Some(step_no - n_steps) } else { None };
+            let ci = match audit { Some(a) => if a < 3 { 0 } else { 3 }, None => rng.below(clients.len() as u64) as usize };
+            if audit.is_some() {
+                let (_, fresh, _) = marker(&mut ctx, &clients[ci]);
+                clients[ci].cid = Some(fresh);
+            }
             let tid = (rng.next() & 0x3fff_ffff) as i32 * if rng.chance(1, 4) { -1 } else { 1 };
             // which connection id the request carries
-            let id_kind = rng.below(10);
+            let id_kind = if audit.is_some() { 0 } else { rng.below(10) };
             let own = clients[ci].cid.unwrap();
             let cid: [u8; 8] = match id_kind {
                 0..=4 => own,
@@ -308,6 +315,7 @@ pub fn run(args: &Args) {
             pid[1] = rng.below(3) as u8;
             let kind = rng.below(16);
             let (name, mut dgram): (&'static str, Vec<u8>) = match kind {
+                _ if audit.is_some() => ("scrape", scrape_bytes(&cid, tid, &[pool[audit.unwrap() % 3]])),
                 0 | 1 => ("connect", connect_bytes(tid)),
                 2 => {
                     let mut d = connect_bytes(tid);
